@@ -2,4 +2,961 @@ import LcModel.Sync.Defs
 /-! # Sync layer — lemmas for C08 / C09 -/
 namespace Sync
 
+/-! ## `minOf` -/
+
+theorem minOf_eq_none {l : List Nat} : minOf l = none ↔ l = [] := by
+  cases l with
+  | nil => simp [minOf]
+  | cons a as =>
+    simp only [minOf]
+    cases minOf as <;> simp
+
+theorem minOf_le {l : List Nat} {m : Nat} (h : minOf l = some m) : ∀ x ∈ l, m ≤ x := by
+  induction l generalizing m with
+  | nil => simp [minOf] at h
+  | cons a as ih =>
+    intro x hx
+    simp only [minOf] at h
+    cases hm : minOf as with
+    | none =>
+      rw [hm] at h
+      have has : as = [] := minOf_eq_none.1 hm
+      subst has
+      simp at h hx
+      omega
+    | some m' =>
+      rw [hm] at h
+      simp at h
+      have h' := ih hm
+      rcases List.mem_cons.1 hx with rfl | hx
+      · omega
+      · have := h' x hx; omega
+
+theorem minOf_of_mem {l : List Nat} {x : Nat} (hx : x ∈ l) : ∃ m, minOf l = some m ∧ m ≤ x := by
+  cases hm : minOf l with
+  | none => rw [minOf_eq_none.1 hm] at hx; simp at hx
+  | some m => exact ⟨m, rfl, minOf_le hm x hx⟩
+
+/-! ## `upsert`, `lastGiven` -/
+
+theorem mem_upsert {l : List (Nat × Nat)} {x e : Nat × Nat} (h : e ∈ upsert l x) :
+    e = x ∨ (e ∈ l ∧ e.1 ≠ x.1) := by
+  unfold upsert at h
+  split at h
+  · rcases List.mem_map.1 h with ⟨a, ha, rfl⟩
+    by_cases hax : a.1 = x.1
+    · simp [hax]
+    · simp only [hax, if_false]; exact Or.inr ⟨ha, hax⟩
+  · rename_i hany
+    rcases List.mem_append.1 h with h | h
+    · refine Or.inr ⟨h, ?_⟩
+      intro he
+      apply hany
+      simp only [List.any_eq_true, decide_eq_true_eq]
+      exact ⟨e, h, he⟩
+    · simp at h; exact Or.inl h
+
+theorem upsert_keys_nodup {l : List (Nat × Nat)} {x : Nat × Nat} (h : (l.map (·.1)).Nodup) :
+    ((upsert l x).map (·.1)).Nodup := by
+  unfold upsert
+  split
+  · have : (l.map (fun e => if e.1 = x.1 then x else e)).map (·.1) = l.map (·.1) := by
+      rw [List.map_map]
+      apply List.map_congr_left
+      intro a _
+      by_cases ha : a.1 = x.1 <;> simp [ha]
+    rw [this]; exact h
+  · rename_i hany
+    rw [List.map_append]
+    refine List.nodup_append.2 ⟨h, by simp, ?_⟩
+    intro a ha b hb
+    simp at hb
+    subst hb
+    rcases List.mem_map.1 ha with ⟨e, he, rfl⟩
+    intro heq
+    apply hany
+    simp only [List.any_eq_true, decide_eq_true_eq]
+    exact ⟨e, he, heq⟩
+
+theorem foldl_upsert_keys_nodup (arg : List (Nat × Nat)) :
+    ∀ base : List (Nat × Nat), (base.map (·.1)).Nodup → ((arg.foldl upsert base).map (·.1)).Nodup := by
+  induction arg with
+  | nil => intro base h; exact h
+  | cons x rest ih => intro base h; exact ih _ (upsert_keys_nodup h)
+
+theorem lastGiven_cons (s : Nat) (x : Nat × Nat) (rest : List (Nat × Nat)) :
+    lastGiven s (x :: rest) =
+      match lastGiven s rest with
+      | some m => some m
+      | none => if x.1 = s then some x.2 else none := by
+  cases x; rfl
+
+theorem lastGiven_mem {s n : Nat} {arg : List (Nat × Nat)} (h : lastGiven s arg = some n) :
+    (s, n) ∈ arg := by
+  induction arg with
+  | nil => simp [lastGiven] at h
+  | cons x rest ih =>
+    rw [lastGiven_cons] at h
+    cases hr : lastGiven s rest with
+    | some m =>
+      rw [hr] at h; simp at h; subst h
+      exact List.mem_cons_of_mem _ (ih hr)
+    | none =>
+      rw [hr] at h
+      by_cases hx : x.1 = s
+      · simp [hx] at h
+        have : x = (s, n) := by cases x; simp_all
+        rw [this]; exact List.mem_cons_self
+      · simp [hx] at h
+
+theorem lastGiven_none {s : Nat} {arg : List (Nat × Nat)} (h : lastGiven s arg = none) :
+    arg.any (·.1 = s) = false := by
+  induction arg with
+  | nil => rfl
+  | cons x rest ih =>
+    rw [lastGiven_cons] at h
+    cases hr : lastGiven s rest with
+    | some m => rw [hr] at h; simp at h
+    | none =>
+      rw [hr] at h
+      by_cases hx : x.1 = s
+      · simp [hx] at h
+      · simp only [List.any_cons, ih hr, hx, decide_false, Bool.or_false]
+
+/-- a member of the upserted list was either given (with its last number) or is an untouched
+member of the base -/
+theorem mem_foldl_upsert {e : Nat × Nat} (arg : List (Nat × Nat)) :
+    ∀ base : List (Nat × Nat), e ∈ arg.foldl upsert base →
+      lastGiven e.1 arg = some e.2 ∨ (lastGiven e.1 arg = none ∧ e ∈ base) := by
+  induction arg with
+  | nil => intro base h; exact Or.inr ⟨rfl, h⟩
+  | cons x rest ih =>
+    intro base h
+    rw [lastGiven_cons]
+    rcases ih _ h with h1 | ⟨h1, h2⟩
+    · rw [h1]; exact Or.inl rfl
+    · rw [h1]
+      rcases mem_upsert h2 with rfl | ⟨h3, h4⟩
+      · simp
+      · have : ¬ x.1 = e.1 := fun h => h4 h.symm
+        simp only [this, if_false]
+        exact Or.inr ⟨trivial, h3⟩
+
+/-! ## lookups (`find?` on the key) -/
+
+theorem find_map_replace_ne {x : Nat × Nat} {s : Nat} (hxs : x.1 ≠ s) (l : List (Nat × Nat)) :
+    (l.map (fun e => if e.1 = x.1 then x else e)).find? (·.1 = s) = l.find? (·.1 = s) := by
+  induction l with
+  | nil => rfl
+  | cons a as ih =>
+    simp only [List.map_cons, List.find?_cons, ih]
+    by_cases ha : a.1 = x.1
+    · have : ¬ a.1 = s := by rw [ha]; exact hxs
+      simp [ha, hxs]
+    · simp [ha]
+
+theorem find_map_replace_eq {x : Nat × Nat} {s : Nat} (hxs : x.1 = s) (l : List (Nat × Nat))
+    (hany : l.any (·.1 = x.1) = true) :
+    (l.map (fun e => if e.1 = x.1 then x else e)).find? (·.1 = s) = some x := by
+  induction l with
+  | nil => simp at hany
+  | cons a as ih =>
+    simp only [List.map_cons, List.find?_cons]
+    by_cases ha : a.1 = x.1
+    · simp [ha, hxs]
+    · have : ¬ a.1 = s := by rw [← hxs]; exact ha
+      simp only [List.any_cons, ha, decide_false, Bool.false_or] at hany
+      simp [ha, this, ih hany]
+
+theorem lookup_upsert (l : List (Nat × Nat)) (x : Nat × Nat) (s : Nat) :
+    ((upsert l x).find? (·.1 = s)).map (·.2) =
+      if x.1 = s then some x.2 else (l.find? (·.1 = s)).map (·.2) := by
+  unfold upsert
+  split
+  · rename_i hany
+    by_cases hxs : x.1 = s
+    · rw [find_map_replace_eq hxs l hany]; simp [hxs]
+    · rw [find_map_replace_ne hxs l]; simp [hxs]
+  · rename_i hany
+    rw [List.find?_append]
+    by_cases hxs : x.1 = s
+    · have : l.find? (·.1 = s) = none := by
+        rw [List.find?_eq_none]
+        intro e he hes
+        apply hany
+        simp only [List.any_eq_true, decide_eq_true_eq] at hes ⊢
+        exact ⟨e, he, by rw [hes, hxs]⟩
+      simp [this, hxs]
+    · simp [hxs]
+
+theorem lookup_foldl_upsert (arg : List (Nat × Nat)) (s : Nat) :
+    ∀ base : List (Nat × Nat),
+      ((arg.foldl upsert base).find? (·.1 = s)).map (·.2) =
+        (lastGiven s arg).orElse (fun _ => (base.find? (·.1 = s)).map (·.2)) := by
+  induction arg with
+  | nil => intro base; rfl
+  | cons x rest ih =>
+    intro base
+    rw [List.foldl_cons, ih, lookup_upsert, lastGiven_cons]
+    cases lastGiven s rest with
+    | some m => rfl
+    | none => by_cases hxs : x.1 = s <;> simp [hxs]
+
+theorem lookup_filter_not_any (arg l : List (Nat × Nat)) (s : Nat) :
+    ((l.filter (fun e => !arg.any (·.1 = e.1))).find? (·.1 = s)).map (·.2) =
+      if arg.any (·.1 = s) then none else (l.find? (·.1 = s)).map (·.2) := by
+  induction l with
+  | nil => simp
+  | cons a as ih =>
+    by_cases ha : arg.any (·.1 = a.1) = true
+    · rw [List.filter_cons_of_neg (by simp [ha]), ih]
+      by_cases has : a.1 = s
+      · rw [has] at ha; simp [ha]
+      · simp [has]
+    · have ha' : arg.any (·.1 = a.1) = false := Bool.eq_false_iff.2 ha
+      rw [List.filter_cons_of_pos (by rw [ha']; rfl)]
+      by_cases has : a.1 = s
+      · rw [has] at ha'; simp [has, ha']
+      · simp only [List.find?_cons, has, decide_false]; exact ih
+
+/-! ## `insertRecord` -/
+
+theorem mem_insertRecord {r x : Record} {l : List Record} (h : x ∈ insertRecord r l) :
+    x = r ∨ x ∈ l := by
+  induction l with
+  | nil => simp [insertRecord] at h; exact Or.inl h
+  | cons a as ih =>
+    simp only [insertRecord] at h
+    split at h
+    · rcases List.mem_cons.1 h with h | h
+      · exact Or.inl h
+      · exact Or.inr h
+    · split at h
+      · rcases List.mem_cons.1 h with h | h
+        · exact Or.inl h
+        · exact Or.inr (List.mem_cons_of_mem _ h)
+      · rcases List.mem_cons.1 h with h | h
+        · exact Or.inr (h ▸ List.mem_cons_self)
+        · rcases ih h with h | h
+          · exact Or.inl h
+          · exact Or.inr (List.mem_cons_of_mem _ h)
+
+theorem self_mem_insertRecord (r : Record) (l : List Record) : r ∈ insertRecord r l := by
+  induction l with
+  | nil => simp [insertRecord]
+  | cons a as ih =>
+    simp only [insertRecord]
+    split
+    · exact List.mem_cons_self
+    · split
+      · exact List.mem_cons_self
+      · exact List.mem_cons_of_mem _ ih
+
+theorem mem_insertRecord_of_ne {r x : Record} {l : List Record} (h : x ∈ l)
+    (hne : x.start ≠ r.start) : x ∈ insertRecord r l := by
+  induction l with
+  | nil => simp at h
+  | cons a as ih =>
+    simp only [insertRecord]
+    split
+    · exact List.mem_cons_of_mem _ h
+    · split
+      · rename_i heq
+        rcases List.mem_cons.1 h with h | h
+        · subst h; exact absurd heq.symm hne
+        · exact List.mem_cons_of_mem _ h
+      · rcases List.mem_cons.1 h with h | h
+        · subst h; exact List.mem_cons_self
+        · exact List.mem_cons_of_mem _ (ih h)
+
+theorem pairwise_insertRecord (r : Record) {l : List Record}
+    (h : l.Pairwise (fun a b => a.start < b.start)) :
+    (insertRecord r l).Pairwise (fun a b => a.start < b.start) := by
+  induction l with
+  | nil => simp [insertRecord]
+  | cons a as ih =>
+    rw [List.pairwise_cons] at h
+    simp only [insertRecord]
+    split
+    · rename_i hlt
+      refine List.pairwise_cons.2 ⟨?_, List.pairwise_cons.2 h⟩
+      intro y hy
+      rcases List.mem_cons.1 hy with rfl | hy
+      · exact hlt
+      · exact Nat.lt_trans hlt (h.1 y hy)
+    · split
+      · rename_i heq
+        refine List.pairwise_cons.2 ⟨?_, h.2⟩
+        intro y hy
+        rw [heq]; exact h.1 y hy
+      · rename_i h1 h2
+        refine List.pairwise_cons.2 ⟨?_, ih h.2⟩
+        intro y hy
+        rcases mem_insertRecord hy with rfl | hy
+        · omega
+        · exact h.1 y hy
+
+/-! ## chains of writes: the property after every write -/
+
+/-- `Q` holds after every write of the list (issued from `p`) -/
+def Chain (Q : P → Prop) : P → List W → Prop
+  | _, [] => True
+  | p, w :: ws => Q (applyW p w) ∧ Chain Q (applyW p w) ws
+
+theorem applyWs_nil (p : P) : applyWs p [] = p := rfl
+theorem applyWs_cons (p : P) (w : W) (ws : List W) :
+    applyWs p (w :: ws) = applyWs (applyW p w) ws := rfl
+theorem applyWs_append (p : P) (ws vs : List W) :
+    applyWs p (ws ++ vs) = applyWs (applyWs p ws) vs := by
+  simp [applyWs, List.foldl_append]
+
+theorem chain_take {Q : P → Prop} : ∀ (ws : List W) (p : P), Q p → Chain Q p ws →
+    ∀ j, Q (applyWs p (ws.take j))
+  | [], p, hq, _, j => by simpa [applyWs] using hq
+  | _ :: _, p, hq, _, 0 => by simpa [applyWs] using hq
+  | w :: ws, p, _, hc, j + 1 => by
+    rw [List.take_succ_cons, applyWs_cons]
+    exact chain_take ws (applyW p w) hc.1 hc.2 j
+
+theorem chain_take_succ {Q : P → Prop} {p : P} {ws : List W} (h0 : ws = [] → Q p)
+    (hc : Chain Q p ws) (j : Nat) : Q (applyWs p (ws.take (j + 1))) := by
+  cases ws with
+  | nil => simpa [applyWs] using h0 rfl
+  | cons w ws =>
+    rw [List.take_succ_cons, applyWs_cons]
+    exact chain_take ws (applyW p w) hc.1 hc.2 j
+
+theorem chain_last {Q : P → Prop} : ∀ (ws : List W) (p : P), Q p → Chain Q p ws →
+    Q (applyWs p ws)
+  | [], _, hq, _ => hq
+  | w :: ws, p, _, hc => chain_last ws (applyW p w) hc.1 hc.2
+
+theorem chain_append {Q : P → Prop} : ∀ (ws vs : List W) (p : P), Chain Q p ws →
+    Chain Q (applyWs p ws) vs → Chain Q p (ws ++ vs)
+  | [], _, _, _, h => h
+  | w :: ws, _, p, h1, h2 => ⟨h1.1, chain_append ws _ (applyW p w) h1.2 h2⟩
+
+theorem chain_of_forall {Q : P → Prop} : ∀ (ws : List W) (p : P),
+    (∀ q, ∀ w ∈ ws, Q q → Q (applyW q w)) → Q p → Chain Q p ws
+  | [], _, _, _ => trivial
+  | w :: ws, p, h, hq =>
+    ⟨h p w List.mem_cons_self hq,
+     chain_of_forall ws (applyW p w) (fun q w' hw' => h q w' (List.mem_cons_of_mem _ hw'))
+       (h p w List.mem_cons_self hq)⟩
+
+/-! ## the invariant under single writes -/
+
+section
+variable {touches : Nat → Nat → Bool} {p : P} {lo : Nat → Nat}
+
+theorem inv_filterBlock (hi : Inv touches ⟨p, lo⟩) (b : Nat) :
+    Inv touches ⟨applyW p (.filterBlock b), lo⟩ := by
+  obtain ⟨hk, hl, hs, hc, hcm, hr⟩ := hi
+  refine ⟨hk, hl, ?_, ?_, hcm, hr⟩
+  · intro e he b' ht h1 h2
+    exact List.mem_append_left _ (hs e he b' ht h1 h2)
+  · intro e he b' ht h1 h2
+    rcases hc e he b' ht h1 h2 with h | h
+    · exact Or.inl (List.mem_append_left _ h)
+    · exact Or.inr h
+
+theorem filterBlock_indexed (p : P) (b : Nat) :
+    ∀ e ∈ p.scripts, (e.1, b) ∈ (applyW p (.filterBlock b)).indexed := by
+  intro e he
+  show (e.1, b) ∈ p.indexed ++ _
+  by_cases h : (e.1, b) ∈ p.indexed
+  · exact List.mem_append_left _ h
+  · apply List.mem_append_right
+    rw [List.mem_filter]
+    refine ⟨List.mem_map.2 ⟨e, he, rfl⟩, ?_⟩
+    simpa using h
+
+/-- the store after indexing a list of blocks -/
+theorem applyWs_filterBlocks (bs : List Nat) : ∀ p : P,
+    (applyWs p (bs.map W.filterBlock)).scripts = p.scripts ∧
+    (applyWs p (bs.map W.filterBlock)).minF = p.minF ∧
+    (applyWs p (bs.map W.filterBlock)).records = p.records ∧
+    (∀ x ∈ p.indexed, x ∈ (applyWs p (bs.map W.filterBlock)).indexed) ∧
+    (∀ b ∈ bs, ∀ e ∈ p.scripts, (e.1, b) ∈ (applyWs p (bs.map W.filterBlock)).indexed) := by
+  induction bs with
+  | nil => intro p; exact ⟨rfl, rfl, rfl, fun _ h => h, by simp⟩
+  | cons a as ih =>
+    intro p
+    rw [List.map_cons, applyWs_cons]
+    obtain ⟨h1, h2, h3, h4, h5⟩ := ih (applyW p (.filterBlock a))
+    refine ⟨h1, h2, h3, ?_, ?_⟩
+    · intro x hx
+      exact h4 x (List.mem_append_left _ hx)
+    · intro b hb e he
+      rcases List.mem_cons.1 hb with rfl | hb
+      · exact h4 _ (filterBlock_indexed p b e he)
+      · exact h5 b hb e he
+
+theorem mem_updateBlockNumber {n : Nat} {e' : Nat × Nat}
+    (h : e' ∈ (applyW p (.updateBlockNumber n)).scripts) :
+    ∃ e ∈ p.scripts, e'.1 = e.1 ∧ e.2 ≤ e'.2 ∧ n ≤ e'.2 ∧ (e'.2 = e.2 ∨ (e'.2 = n ∧ e.2 < n)) := by
+  rcases List.mem_map.1 h with ⟨e, he, rfl⟩
+  refine ⟨e, he, ?_⟩
+  by_cases hn : e.2 < n
+  · rw [if_pos hn]; exact ⟨rfl, Nat.le_of_lt hn, Nat.le_refl _, Or.inr ⟨rfl, hn⟩⟩
+  · rw [if_neg hn]; exact ⟨rfl, Nat.le_refl _, Nat.le_of_not_lt hn, Or.inl rfl⟩
+
+theorem inv_updateBlockNumber (hi : Inv touches ⟨p, lo⟩) (n : Nat)
+    (h : ∀ e ∈ p.scripts, ∀ b, touches e.1 b = true → e.2 < b → b ≤ n → (e.1, b) ∈ p.indexed) :
+    Inv touches ⟨applyW p (.updateBlockNumber n), lo⟩ := by
+  obtain ⟨hk, hl, hs, hc, hcm, hr⟩ := hi
+  refine ⟨?_, ?_, ?_, ?_, ?_, hr⟩
+  · have : ((applyW p (.updateBlockNumber n)).scripts.map (·.1)) = p.scripts.map (·.1) := by
+      show (p.scripts.map _).map _ = _
+      rw [List.map_map]
+      apply List.map_congr_left
+      intro a _
+      by_cases ha : a.2 < n <;> simp [ha]
+    show (((applyW p (.updateBlockNumber n)).scripts.map (·.1))).Nodup
+    rw [this]; exact hk
+  · intro e' he'
+    obtain ⟨e, he, h1, h2, _, _⟩ := mem_updateBlockNumber he'
+    have := hl e he
+    show lo e'.1 ≤ e'.2
+    rw [h1]; exact Nat.le_trans this h2
+  · intro e' he' b ht hlo hb
+    obtain ⟨e, he, h1, h2, _, h4⟩ := mem_updateBlockNumber he'
+    show (e'.1, b) ∈ p.indexed
+    rw [h1] at ht ⊢
+    have hlo' : lo e.1 < b := by have : lo e'.1 < b := hlo; rwa [h1] at this
+    by_cases hbe : b ≤ e.2
+    · exact hs e he b ht hlo' hbe
+    · apply h e he b ht (by omega)
+      rcases h4 with h4 | h4 <;> omega
+  · intro e' he' b ht hlt hb
+    obtain ⟨e, he, h1, h2, _, _⟩ := mem_updateBlockNumber he'
+    show (e'.1, b) ∈ p.indexed ∨ pending p b
+    rw [h1] at ht ⊢
+    exact hc e he b ht (by omega) hb
+  · intro r hr' e' he' b hb1 hb2 ht hlt
+    obtain ⟨e, he, h1, h2, _, _⟩ := mem_updateBlockNumber he'
+    rw [h1] at ht
+    exact hcm r hr' e he b hb1 hb2 ht (by omega)
+
+theorem inv_delRecord (hi : Inv touches ⟨p, lo⟩) (start : Nat)
+    (h : ∀ e ∈ p.scripts, ∀ b, touches e.1 b = true → e.2 < b → b ≤ p.minF →
+      (e.1, b) ∈ p.indexed ∨ ∃ r ∈ p.records, r.start ≠ start ∧ b ∈ r.matched) :
+    Inv touches ⟨applyW p (.delRecord start), lo⟩ := by
+  obtain ⟨hk, hl, hs, hc, hcm, hr1, hr2, hr3⟩ := hi
+  have hmem : ∀ r, r ∈ (applyW p (.delRecord start)).records → r ∈ p.records := by
+    intro r hr; exact (List.mem_filter.1 hr).1
+  refine ⟨hk, hl, hs, ?_, ?_, ?_, ?_, ?_⟩
+  · intro e he b ht hlt hb
+    rcases h e he b ht hlt hb with h | ⟨r, hr, hne, hbm⟩
+    · exact Or.inl h
+    · refine Or.inr ⟨r, ?_, hbm⟩
+      show r ∈ p.records.filter _
+      rw [List.mem_filter]
+      exact ⟨hr, by simpa using hne⟩
+  · intro r hr; exact hcm r (hmem r hr)
+  · exact hr1.sublist List.filter_sublist
+  · intro r hr; exact hr2 r (hmem r hr)
+  · intro r hr; exact hr3 r (hmem r hr)
+
+theorem inv_putMinF (hi : Inv touches ⟨p, lo⟩) (n : Nat)
+    (h1 : ∀ r ∈ p.records, r.start ≤ n + 1)
+    (h2 : ∀ e ∈ p.scripts, ∀ b, touches e.1 b = true → e.2 < b → p.minF < b → b ≤ n →
+      (e.1, b) ∈ p.indexed ∨ pending p b) :
+    Inv touches ⟨applyW p (.putMinF n), lo⟩ := by
+  obtain ⟨hk, hl, hs, hc, hcm, hr1, hr2, hr3⟩ := hi
+  refine ⟨hk, hl, hs, ?_, hcm, hr1, hr2, h1⟩
+  intro e he b ht hlt hb
+  by_cases hbm : b ≤ p.minF
+  · exact hc e he b ht hlt hbm
+  · exact h2 e he b ht hlt (by omega) hb
+
+theorem inv_putRecord (hi : Inv touches ⟨p, lo⟩) (r : Record)
+    (h1 : ∀ b ∈ r.matched, r.start ≤ b ∧ b < r.start + r.count)
+    (h2 : r.start = p.minF + 1)
+    (h3 : ∀ e ∈ p.scripts, ∀ b, r.start ≤ b → b < r.start + r.count → touches e.1 b = true →
+      e.2 < b → b ∈ r.matched) :
+    Inv touches ⟨applyW p (.putRecord r), lo⟩ := by
+  obtain ⟨hk, hl, hs, hc, hcm, hr1, hr2, hr3⟩ := hi
+  refine ⟨hk, hl, hs, ?_, ?_, pairwise_insertRecord r hr1, ?_, ?_⟩
+  · intro e he b ht hlt hb
+    rcases hc e he b ht hlt hb with h | ⟨x, hx, hbx⟩
+    · exact Or.inl h
+    · refine Or.inr ⟨x, mem_insertRecord_of_ne hx ?_, hbx⟩
+      intro heq
+      have := (hr2 x hx b hbx).1
+      have hb' : b ≤ p.minF := hb
+      omega
+  · intro x hx
+    rcases mem_insertRecord hx with rfl | hx
+    · exact h3
+    · exact hcm x hx
+  · intro x hx
+    rcases mem_insertRecord hx with rfl | hx
+    · exact h1
+    · exact hr2 x hx
+  · intro x hx
+    rcases mem_insertRecord hx with rfl | hx
+    · exact Nat.le_of_eq h2
+    · exact hr3 x hx
+
+theorem inv_setBatch {lo' : Nat → Nat} (S : List (Nat × Nat)) (M : Option Nat)
+    (hk : (S.map (·.1)).Nodup)
+    (hlo : ∀ e ∈ S, lo' e.1 ≤ e.2)
+    (hsafe : ∀ e ∈ S, ∀ b, touches e.1 b = true → lo' e.1 < b → b ≤ e.2 → (e.1, b) ∈ p.indexed)
+    (hcover : ∀ e ∈ S, M.getD p.minF ≤ e.2) :
+    Inv touches ⟨applyW p (.setBatch S M), lo'⟩ := by
+  refine ⟨hk, hlo, hsafe, ?_, ?_, List.Pairwise.nil, ?_, ?_⟩
+  · intro e he b _ hlt hb
+    have := hcover e he
+    have hb' : b ≤ M.getD p.minF := hb
+    omega
+  · intro r hr; cases hr
+  · intro r hr; cases hr
+  · intro r hr; cases hr
+
+end
+
+/-! ## the invariant after every write of an operation -/
+
+section
+variable {touches : Nat → Nat → Bool} {p : P} {lo : Nat → Nat}
+
+theorem chain_genesis {lo' : Nat → Nat} {q : P} (cmd : Cmd) (arg : List (Nat × Nat))
+    (hq : Inv touches ⟨q, lo'⟩) :
+    Chain (fun q => Inv touches ⟨q, lo'⟩) q (genesisWrites cmd arg) := by
+  apply chain_of_forall _ _ _ hq
+  intro q' w hw hq'
+  unfold genesisWrites at hw
+  split at hw
+  · simp at hw; subst hw; exact inv_filterBlock hq' 0
+  · simp at hw
+
+/-! ### `set_scripts` -/
+
+theorem chain_set_all (arg : List (Nat × Nat)) :
+    Chain (fun q => Inv touches ⟨q, loAfter lo (.set .all arg)⟩) p
+      (setScriptsWrites p .all arg) := by
+  have h1 : Inv touches ⟨applyW p (.setBatch (arg.foldl upsert []) (minOf (arg.map (·.2)))),
+      loAfter lo (.set .all arg)⟩ := by
+    apply inv_setBatch
+    · exact foldl_upsert_keys_nodup arg [] (by simp)
+    · intro e he
+      rcases mem_foldl_upsert arg [] he with h | ⟨_, h⟩
+      · show (lastGiven e.1 arg).getD (lo e.1) ≤ e.2
+        rw [h]; exact Nat.le_refl _
+      · cases h
+    · intro e he b _ hlt hb
+      rcases mem_foldl_upsert arg [] he with h | ⟨_, h⟩
+      · have : (lastGiven e.1 arg).getD (lo e.1) < b := hlt
+        rw [h] at this; simp at this; omega
+      · cases h
+    · intro e he
+      rcases mem_foldl_upsert arg [] he with h | ⟨_, h⟩
+      · have hm : e.2 ∈ arg.map (·.2) := List.mem_map.2 ⟨_, lastGiven_mem h, rfl⟩
+        obtain ⟨m, hm1, hm2⟩ := minOf_of_mem hm
+        rw [hm1]; exact hm2
+      · cases h
+  exact ⟨h1, chain_genesis _ _ h1⟩
+
+/-- the number `set_scripts partial` rewinds the filter sync to -/
+def partTarget (p : P) (arg : List (Nat × Nat)) : Nat :=
+  let m := (minOf (arg.map (·.2))).getD 0
+  let kept := p.scripts.filter (fun e => !arg.any (·.1 = e.1))
+  if p.scripts.isEmpty then m else (minOf ([m] ++ kept.map (·.2) ++ [p.minF])).getD m
+
+theorem setScriptsWrites_part_nil (p : P) : setScriptsWrites p .part [] = [] := rfl
+
+theorem setScriptsWrites_part_cons (p : P) (x : Nat × Nat) (rest : List (Nat × Nat)) :
+    setScriptsWrites p .part (x :: rest) =
+      .setBatch ((x :: rest).foldl upsert p.scripts) (some (partTarget p (x :: rest))) ::
+        genesisWrites .part (x :: rest) := rfl
+
+theorem partTarget_le_given (p : P) (arg : List (Nat × Nat)) :
+    ∀ n ∈ arg.map (·.2), partTarget p arg ≤ n := by
+  intro n hn
+  obtain ⟨m0, hm0, hm0n⟩ := minOf_of_mem hn
+  unfold partTarget
+  simp only [hm0, Option.getD_some]
+  split
+  · exact hm0n
+  · have : m0 ∈ [m0] ++ (p.scripts.filter (fun e => !arg.any (·.1 = e.1))).map (·.2) ++ [p.minF] := by
+      simp
+    obtain ⟨t, ht, htm⟩ := minOf_of_mem this
+    rw [ht]; exact Nat.le_trans htm hm0n
+
+theorem partTarget_le_kept (p : P) (arg : List (Nat × Nat)) :
+    ∀ e ∈ p.scripts, arg.any (·.1 = e.1) = false → partTarget p arg ≤ e.2 := by
+  intro e he hany
+  unfold partTarget
+  have hne : p.scripts.isEmpty = false := by
+    cases hs : p.scripts with
+    | nil => rw [hs] at he; cases he
+    | cons _ _ => rfl
+  simp only [hne]
+  have hk : e ∈ p.scripts.filter (fun e => !arg.any (·.1 = e.1)) := by
+    rw [List.mem_filter]; exact ⟨he, by rw [hany]; rfl⟩
+  have : e.2 ∈ [(minOf (arg.map (·.2))).getD 0] ++
+      (p.scripts.filter (fun e => !arg.any (·.1 = e.1))).map (·.2) ++ [p.minF] := by
+    apply List.mem_append_left
+    apply List.mem_append_right
+    exact List.mem_map.2 ⟨e, hk, rfl⟩
+  obtain ⟨t, ht, hte⟩ := minOf_of_mem this
+  simp only [Bool.false_eq_true, if_false]
+  rw [ht]; exact hte
+
+theorem inv_set_part_batch (hi : Inv touches ⟨p, lo⟩) (arg : List (Nat × Nat)) (target : Nat)
+    (ht1 : ∀ n ∈ arg.map (·.2), target ≤ n)
+    (ht2 : ∀ e ∈ p.scripts, arg.any (·.1 = e.1) = false → target ≤ e.2) :
+    Inv touches ⟨applyW p (.setBatch (arg.foldl upsert p.scripts) (some target)),
+      loAfter lo (.set .part arg)⟩ := by
+  apply inv_setBatch
+  · exact foldl_upsert_keys_nodup arg _ hi.keys
+  · intro e he
+    show (lastGiven e.1 arg).getD (lo e.1) ≤ e.2
+    rcases mem_foldl_upsert arg _ he with h | ⟨h, he'⟩
+    · rw [h]; exact Nat.le_refl _
+    · rw [h]; exact hi.lo e he'
+  · intro e he b ht hlt hb
+    have hlt' : (lastGiven e.1 arg).getD (lo e.1) < b := hlt
+    rcases mem_foldl_upsert arg _ he with h | ⟨h, he'⟩
+    · rw [h] at hlt'; simp at hlt'; omega
+    · rw [h] at hlt'
+      exact hi.safe e he' b ht hlt' hb
+  · intro e he
+    show target ≤ e.2
+    rcases mem_foldl_upsert arg _ he with h | ⟨h, he'⟩
+    · exact ht1 _ (List.mem_map.2 ⟨_, lastGiven_mem h, rfl⟩)
+    · exact ht2 e he' (lastGiven_none h)
+
+theorem chain_set_part (hi : Inv touches ⟨p, lo⟩) (arg : List (Nat × Nat)) :
+    Chain (fun q => Inv touches ⟨q, loAfter lo (.set .part arg)⟩) p
+      (setScriptsWrites p .part arg) := by
+  cases arg with
+  | nil => trivial
+  | cons x rest =>
+    rw [setScriptsWrites_part_cons]
+    have h1 := inv_set_part_batch hi (x :: rest) (partTarget p (x :: rest))
+      (partTarget_le_given p _) (partTarget_le_kept p _)
+    exact ⟨h1, chain_genesis _ _ h1⟩
+
+theorem chain_set_del (hi : Inv touches ⟨p, lo⟩) (arg : List (Nat × Nat)) :
+    Chain (fun q => Inv touches ⟨q, lo⟩) p (setScriptsWrites p .del arg) := by
+  cases arg with
+  | nil => trivial
+  | cons x rest =>
+    refine ⟨?_, trivial⟩
+    apply inv_setBatch
+    · exact hi.keys.sublist (List.Sublist.map _ List.filter_sublist)
+    · intro e he; exact hi.lo e (List.mem_filter.1 he).1
+    · intro e he; exact hi.safe e (List.mem_filter.1 he).1
+    · intro e he
+      have : e.2 ∈ (p.scripts.filter (fun e => !(x :: rest).any (·.1 = e.1))).map (·.2) :=
+        List.mem_map.2 ⟨e, he, rfl⟩
+      obtain ⟨m, hm, hme⟩ := minOf_of_mem this
+      rw [hm]
+      show min m p.minF ≤ e.2
+      omega
+
+/-! ### a batch of block filters -/
+
+theorem chain_filters_put (hi : Inv touches ⟨p, lo⟩) {start k : Nat} {matched : List Nat}
+    (hstart : p.minF + 1 = start)
+    (ho1 : ∀ b ∈ matched, start ≤ b ∧ b < start + k)
+    (ho2 : ∀ e ∈ p.scripts, ∀ b, start ≤ b → b < start + k → touches e.1 b = true → e.2 < b →
+      b ∈ matched) :
+    Chain (fun q => Inv touches ⟨q, lo⟩) p
+      [.putRecord ⟨start, k, matched⟩, .putMinF (start + k - 1)] := by
+  have h1 : Inv touches ⟨applyW p (.putRecord ⟨start, k, matched⟩), lo⟩ :=
+    inv_putRecord hi _ ho1 hstart.symm ho2
+  refine ⟨h1, inv_putMinF h1 _ ?_ ?_, trivial⟩
+  · intro r hr
+    have : r.start ≤ p.minF + 1 := h1.records.2.2 r hr
+    omega
+  · intro e he b ht hlt hb1 hb2
+    have hb1' : p.minF < b := hb1
+    exact Or.inr ⟨⟨start, k, matched⟩, self_mem_insertRecord _ _,
+      ho2 e he b (by omega) (by omega) ht hlt⟩
+
+theorem chain_filters_upd (hi : Inv touches ⟨p, lo⟩) {start k : Nat}
+    (hstart : p.minF + 1 = start) (hrec : p.records = [])
+    (ho2 : ∀ e ∈ p.scripts, ∀ b, start ≤ b → b < start + k → touches e.1 b = true → e.2 < b →
+      b ∈ ([] : List Nat)) :
+    Chain (fun q => Inv touches ⟨q, lo⟩) p
+      [.updateBlockNumber (start + k - 1), .putMinF (start + k - 1)] := by
+  have h1 : Inv touches ⟨applyW p (.updateBlockNumber (start + k - 1)), lo⟩ := by
+    apply inv_updateBlockNumber hi
+    intro e he b ht hlt hb
+    by_cases hbm : b ≤ p.minF
+    · rcases hi.cover e he b ht hlt hbm with h | ⟨r, hr, _⟩
+      · exact h
+      · have hr' : r ∈ p.records := hr
+        rw [hrec] at hr'; cases hr'
+    · have := ho2 e he b (by omega) (by omega) ht hlt
+      cases this
+  refine ⟨h1, inv_putMinF h1 _ ?_ ?_, trivial⟩
+  · intro r hr
+    have hr' : r ∈ p.records := hr
+    rw [hrec] at hr'; cases hr'
+  · intro e' he' b ht hlt hb1 hb2
+    obtain ⟨e, he, _, _, h3, _⟩ := mem_updateBlockNumber he'
+    omega
+
+theorem chain_filters_min (hi : Inv touches ⟨p, lo⟩) {start k : Nat}
+    (hstart : p.minF + 1 = start)
+    (ho2 : ∀ e ∈ p.scripts, ∀ b, start ≤ b → b < start + k → touches e.1 b = true → e.2 < b →
+      b ∈ ([] : List Nat)) :
+    Chain (fun q => Inv touches ⟨q, lo⟩) p [.putMinF (start + k - 1)] := by
+  refine ⟨inv_putMinF hi _ ?_ ?_, trivial⟩
+  · intro r hr
+    have : r.start ≤ p.minF + 1 := hi.records.2.2 r hr
+    omega
+  · intro e he b ht hlt hb1 hb2
+    have := ho2 e he b (by omega) (by omega) ht hlt
+    cases this
+
+theorem chain_filters (hi : Inv touches ⟨p, lo⟩) {start k : Nat} {matched : List Nat} {ve : Bool}
+    (ho : OpOk touches ⟨p, lo⟩ (.filters start k matched ve)) :
+    Chain (fun q => Inv touches ⟨q, lo⟩) p (filtersWrites p start k matched ve) := by
+  obtain ⟨ho1, ho2, ho3⟩ := ho
+  unfold filtersWrites
+  split
+  · trivial
+  split
+  · split
+    · rename_i hrec
+      have hrec' : p.records = [] := List.isEmpty_iff.1 hrec
+      refine ⟨inv_updateBlockNumber hi _ ?_, trivial⟩
+      intro e he b ht hlt hb
+      rcases hi.cover e he b ht hlt hb with h | ⟨r, hr, _⟩
+      · exact h
+      · have hr' : r ∈ p.records := hr
+        rw [hrec'] at hr'; cases hr'
+    · trivial
+  split
+  · trivial
+  rename_i hs hstart hk
+  have hstart' : p.minF + 1 = start := Decidable.not_not.1 hstart
+  cases matched with
+  | cons m ms =>
+    exact chain_filters_put hi hstart' ho1 ho2
+  | nil =>
+    cases ve with
+    | false => exact chain_filters_min hi hstart' ho2
+    | true => exact chain_filters_upd hi hstart' (ho3 rfl) ho2
+
+/-! ### completion of the earliest record -/
+
+theorem chain_blocks_tail {p1 : P} {r : Record} {rest : List Record}
+    (hi : Inv touches ⟨p, lo⟩) (hrec : p.records = r :: rest)
+    (hi1 : Inv touches ⟨p1, lo⟩) (e1 : p1.scripts = p.scripts)
+    (e3 : p1.records = p.records)
+    (e4 : ∀ x ∈ p.indexed, x ∈ p1.indexed)
+    (e5 : ∀ b ∈ r.matched, ∀ e ∈ p.scripts, (e.1, b) ∈ p1.indexed) :
+    Chain (fun q => Inv touches ⟨q, lo⟩) p1
+      [.updateBlockNumber (r.start + r.count - 1), .delRecord r.start] := by
+  have hpw : p.records.Pairwise (fun a b => a.start < b.start) := hi.records.1
+  have hrng : ∀ x ∈ p.records, ∀ b ∈ x.matched, x.start ≤ b ∧ b < x.start + x.count :=
+    hi.records.2.1
+  have hst : ∀ x ∈ p.records, x.start ≤ p.minF + 1 := hi.records.2.2
+  rw [hrec] at hpw
+  have hpw' : ∀ x ∈ rest, r.start < x.start := (List.pairwise_cons.1 hpw).1
+  have hrmem : r ∈ p.records := by rw [hrec]; exact List.mem_cons_self
+  have hrr := hrng r hrmem
+  have h2 : Inv touches ⟨applyW p1 (.updateBlockNumber (r.start + r.count - 1)), lo⟩ := by
+    apply inv_updateBlockNumber hi1
+    intro e he b ht hlt hb
+    rw [e1] at he
+    by_cases hrb : r.start ≤ b
+    · exact e5 b (hi.complete r hrmem e he b hrb (by omega) ht hlt) e he
+    · have hst' : r.start ≤ p.minF + 1 := hst r hrmem
+      rcases hi.cover e he b ht hlt (show b ≤ p.minF by omega) with h | ⟨x, hx, hbx⟩
+      · exact e4 _ h
+      · exfalso
+        have hx0 : x ∈ p.records := hx
+        have h3 := (hrng x hx0 b hbx).1
+        rw [hrec] at hx0
+        rcases List.mem_cons.1 hx0 with hxr | hx'
+        · rw [hxr] at h3; omega
+        · have := hpw' x hx'; omega
+  refine ⟨h2, inv_delRecord h2 _ ?_, trivial⟩
+  intro e' he' b ht hlt hb
+  rcases h2.cover e' he' b ht hlt hb with h | ⟨x, hx, hbx⟩
+  · exact Or.inl h
+  · have hx0 : x ∈ p1.records := hx
+    rw [e3, hrec] at hx0
+    refine Or.inr ⟨x, hx, ?_, hbx⟩
+    intro heq
+    obtain ⟨e, he, _, _, h3, _⟩ := mem_updateBlockNumber he'
+    rcases List.mem_cons.1 hx0 with hxr | hx'
+    · rw [hxr] at hbx
+      have := (hrr b hbx).2
+      omega
+    · have := hpw' x hx'; omega
+
+theorem chain_blocks (hi : Inv touches ⟨p, lo⟩) :
+    Chain (fun q => Inv touches ⟨q, lo⟩) p (blocksWrites p) := by
+  cases hrec : p.records with
+  | nil => simp only [blocksWrites, hrec]; trivial
+  | cons r rest =>
+    have hw : blocksWrites p = r.matched.map W.filterBlock ++
+        [.updateBlockNumber (r.start + r.count - 1), .delRecord r.start] := by
+      simp only [blocksWrites, hrec]
+    rw [hw]
+    have hc : Chain (fun q => Inv touches ⟨q, lo⟩) p (r.matched.map W.filterBlock) := by
+      apply chain_of_forall _ _ _ hi
+      intro q w hw hq
+      rcases List.mem_map.1 hw with ⟨b, _, rfl⟩
+      exact inv_filterBlock hq b
+    apply chain_append _ _ _ hc
+    have hi1 : Inv touches ⟨applyWs p (r.matched.map W.filterBlock), lo⟩ :=
+      chain_last (Q := fun q => Inv touches ⟨q, lo⟩) _ _ hi hc
+    obtain ⟨e1, _, e3, e4, e5⟩ := applyWs_filterBlocks r.matched p
+    exact chain_blocks_tail hi hrec hi1 e1 e3 e4 e5
+
+end
+
+/-! ## the step theorems -/
+
+theorem stepG_lo_same (p : P) (lo : Nat → Nat) (op : Op) (j : Nat) (h : loAfter lo op = lo) :
+    stepG ⟨p, lo⟩ op j = ⟨applyWs p ((opWrites p op).take j), lo⟩ := by
+  simp [stepG, h]
+
+/-- **the invariant holds after every prefix of the writes of every operation** -/
+theorem inv_stepG (touches : Nat → Nat → Bool) (g : G) (op : Op) (j : Nat)
+    (hi : Inv touches g) (ho : OpOk touches g op) : Inv touches (stepG g op j) := by
+  obtain ⟨p, lo⟩ := g
+  cases op with
+  | set cmd arg =>
+    cases cmd with
+    | all =>
+      cases j with
+      | zero => exact hi
+      | succ j =>
+        exact chain_take_succ (Q := fun q => Inv touches ⟨q, loAfter lo (.set .all arg)⟩)
+          (fun h => by simp [setScriptsWrites] at h) (chain_set_all arg) j
+    | part =>
+      cases j with
+      | zero => exact hi
+      | succ j =>
+        refine chain_take_succ (Q := fun q => Inv touches ⟨q, loAfter lo (.set .part arg)⟩)
+          ?_ (chain_set_part hi arg) j
+        intro h
+        cases arg with
+        | nil => exact hi
+        | cons x rest => rw [setScriptsWrites_part_cons] at h; cases h
+    | del =>
+      rw [stepG_lo_same _ _ _ _ rfl]
+      exact chain_take (Q := fun q => Inv touches ⟨q, lo⟩) _ _ hi (chain_set_del hi arg) j
+  | filters start k matched ve =>
+    rw [stepG_lo_same _ _ _ _ rfl]
+    exact chain_take (Q := fun q => Inv touches ⟨q, lo⟩) _ _ hi (chain_filters hi ho) j
+  | blocks =>
+    rw [stepG_lo_same _ _ _ _ rfl]
+    exact chain_take (Q := fun q => Inv touches ⟨q, lo⟩) _ _ hi (chain_blocks hi) j
+
+theorem inv_stepFull (touches : Nat → Nat → Bool) (g : G) (op : Op)
+    (hi : Inv touches g) (ho : OpOk touches g op) : Inv touches (stepFull g op) :=
+  inv_stepG touches g op _ hi ho
+
+theorem inv_runG (touches : Nat → Nat → Bool) : ∀ (h : List (Op × Option Nat)) (g : G),
+    Inv touches g → HistOk touches g h → Inv touches (runG touches g h)
+  | [], _, hi, _ => hi
+  | (op, some j) :: rest, g, hi, ho =>
+    inv_runG touches rest (stepG g op j) (inv_stepG touches g op j hi ho.1) ho.2
+  | (op, none) :: rest, g, hi, ho =>
+    inv_runG touches rest (stepFull g op) (inv_stepFull touches g op hi ho.1) ho.2
+
+/-- from the invariant: with no record pending every touching block up to `minF` is indexed -/
+theorem indexed_of_done {touches : Nat → Nat → Bool} {g : G} (hi : Inv touches g)
+    (hdone : g.p.records = []) {s n b : Nat} (hs : (s, n) ∈ g.p.scripts)
+    (ht : touches s b = true) (hlo : g.lo s < b) (hb : b ≤ g.p.minF) : (s, b) ∈ g.p.indexed := by
+  by_cases hbn : b ≤ n
+  · exact hi.safe (s, n) hs b ht hlo hbn
+  · rcases hi.cover (s, n) hs b ht (by show n < b; omega) hb with h | ⟨r, hr, _⟩
+    · exact h
+    · rw [hdone] at hr; cases hr
+
+/-! ## the store after a completed `set_scripts` -/
+
+theorem genesis_scripts (q : P) (cmd : Cmd) (arg : List (Nat × Nat)) :
+    (applyWs q (genesisWrites cmd arg)).scripts = q.scripts := by
+  unfold genesisWrites; split <;> rfl
+
+theorem genesis_records (q : P) (cmd : Cmd) (arg : List (Nat × Nat)) :
+    (applyWs q (genesisWrites cmd arg)).records = q.records := by
+  unfold genesisWrites; split <;> rfl
+
+theorem scripts_after_set_all (p : P) (arg : List (Nat × Nat)) :
+    (applyWs p (setScriptsWrites p .all arg)).scripts = arg.foldl upsert [] :=
+  genesis_scripts _ _ _
+
+theorem scripts_after_set_part (p : P) (arg : List (Nat × Nat)) :
+    (applyWs p (setScriptsWrites p .part arg)).scripts = arg.foldl upsert p.scripts := by
+  cases arg with
+  | nil => rfl
+  | cons x rest => rw [setScriptsWrites_part_cons]; exact genesis_scripts _ _ _
+
+theorem scripts_after_set_del_nil (p : P) :
+    (applyWs p (setScriptsWrites p .del [])).scripts = p.scripts := rfl
+
+theorem scripts_after_set_del_cons (p : P) (x : Nat × Nat) (rest : List (Nat × Nat)) :
+    (applyWs p (setScriptsWrites p .del (x :: rest))).scripts =
+      p.scripts.filter (fun e => !(x :: rest).any (·.1 = e.1)) := rfl
+
+theorem records_after_set (p : P) (cmd : Cmd) (arg : List (Nat × Nat))
+    (h : setScriptsWrites p cmd arg ≠ []) :
+    (applyWs p (setScriptsWrites p cmd arg)).records = [] := by
+  cases cmd with
+  | all => exact genesis_records _ _ _
+  | part =>
+    cases arg with
+    | nil => exact absurd rfl h
+    | cons x rest => rw [setScriptsWrites_part_cons]; exact genesis_records _ _ _
+  | del =>
+    cases arg with
+    | nil => exact absurd rfl h
+    | cons x rest => rfl
+
+theorem keys_after_set (p : P) (cmd : Cmd) (arg : List (Nat × Nat))
+    (hk : (p.scripts.map (·.1)).Nodup) :
+    ((applyWs p (setScriptsWrites p cmd arg)).scripts.map (·.1)).Nodup := by
+  cases cmd with
+  | all => rw [scripts_after_set_all]; exact foldl_upsert_keys_nodup arg [] (by simp)
+  | part => rw [scripts_after_set_part]; exact foldl_upsert_keys_nodup arg _ hk
+  | del =>
+    cases arg with
+    | nil => exact hk
+    | cons x rest =>
+      rw [scripts_after_set_del_cons]
+      exact hk.sublist (List.Sublist.map _ List.filter_sublist)
+
+/-! ## concrete states of the examples -/
+
+/-- script 1 (registered from 0, number 0) waits for block 5 in a record -/
+theorem inv_example_pending :
+    Inv (fun s b => s == 1 && b == 5) ⟨⟨[(1, 0)], 10, [⟨1, 10, [5]⟩], []⟩, fun _ => 0⟩ := by
+  refine ⟨by decide, ?_, ?_, ?_, ?_, ?_, ?_, ?_⟩
+  · intro e he; simp at he; subst he; simp
+  · intro e he b ht hlo hb; simp at he; subst he; simp at hb hlo; omega
+  · intro e he b ht hlt hb
+    simp at he; subst he; simp at ht; subst ht
+    exact Or.inr ⟨⟨1, 10, [5]⟩, by simp, by simp⟩
+  · intro r hr e he b h1 h2 ht hlt
+    simp at hr he; subst hr he; simp at ht; subst ht; simp
+  · simp
+  · intro r hr b hb; simp at hr; subst hr; simp at hb; subst hb; simp
+  · intro r hr; simp at hr; subst hr; simp
+
+/-- script 1 at the filtered number, nothing pending, a block of another script below it -/
+theorem inv_example_idle :
+    Inv (fun s b => s == 2 && b == 5) ⟨⟨[(1, 10)], 10, [], []⟩, fun _ => 0⟩ := by
+  refine ⟨by decide, ?_, ?_, ?_, ?_, ?_, ?_, ?_⟩
+  · intro e he; simp at he; subst he; simp
+  · intro e he b ht hlo hb; simp at he; subst he; simp at ht
+  · intro e he b ht hlt hb; simp at he; subst he; simp at ht
+  · intro r hr; cases hr
+  · simp
+  · intro r hr; cases hr
+  · intro r hr; cases hr
+
 end Sync
